@@ -47,4 +47,37 @@ def guardTable : List Guarded := [
   ⟨"RangeTokenMap.registry", rtm, "RangeTokenMap::getRange", "fMutex"⟩,
   ⟨"RangeTokenMap.complement", rtm, "RangeTokenMap::getRange", "fMutex"⟩]
 
+/-- How many `XMLMutexLock` sites on which mutex the model expects in the functions of a given name (overloads
+counted together), and how many access markers of the resource.  A lock removed together with its marker leaves
+every remaining marker guarded, but it lowers these counts: XV.Props.C17.all_guarded_site_counts.  Further locks
+or markers may be added freely (the obligation is `≥`). -/
+structure SiteCount where
+  resource : String
+  file : String
+  func : String
+  mutex : String
+  sites : Nat
+  deriving Repr, DecidableEq
+
+def siteCounts : List SiteCount := [
+  ⟨"DOMDocumentTypeImpl.sDocument", dt, "DOMDocumentTypeImpl::DOMDocumentTypeImpl", "sDocumentMutex", 2⟩,
+  ⟨"DOMDocumentTypeImpl.sDocument", dt, "DOMDocumentTypeImpl::cloneNode", "sDocumentMutex", 1⟩,
+  ⟨"DOMDocumentTypeImpl.sDocument", dt, "DOMDocumentTypeImpl::setPublicId", "sDocumentMutex", 1⟩,
+  ⟨"DOMDocumentTypeImpl.sDocument", dt, "DOMDocumentTypeImpl::setSystemId", "sDocumentMutex", 1⟩,
+  ⟨"DOMDocumentTypeImpl.sDocument", dt, "DOMDocumentTypeImpl::setInternalSubset", "sDocumentMutex", 1⟩,
+  ⟨"DOMImplementationRegistry.sources", reg, "DOMImplementationRegistry::getDOMImplementation", "gDOMImplSrcVectorMutex", 1⟩,
+  ⟨"DOMImplementationRegistry.sources", reg, "DOMImplementationRegistry::getDOMImplementationList", "gDOMImplSrcVectorMutex", 1⟩,
+  ⟨"DOMImplementationRegistry.sources", reg, "DOMImplementationRegistry::addSource", "gDOMImplSrcVectorMutex", 1⟩,
+  ⟨"XMLScanner.gScannerId", "internal/XMLScanner.cpp", "XMLScanner::commonInit", "sScannerMutex", 1⟩,
+  ⟨"SynchronizedStringPool.overflow", ssp, "XMLSynchronizedStringPool::addOrFind", "fMutex", 1⟩,
+  ⟨"SynchronizedStringPool.overflow", ssp, "XMLSynchronizedStringPool::exists", "fMutex", 2⟩,
+  ⟨"SynchronizedStringPool.overflow", ssp, "XMLSynchronizedStringPool::getId", "fMutex", 1⟩,
+  ⟨"SynchronizedStringPool.overflow", ssp, "XMLSynchronizedStringPool::getValueForId", "fMutex", 1⟩,
+  ⟨"SynchronizedStringPool.overflow", ssp, "XMLSynchronizedStringPool::getStringCount", "fMutex", 1⟩,
+  -- calcRequiredSize: XMLCh (two configuration branches) and char overloads; transcode: XMLCh -> char twice
+  -- (first pass and the retry after a buffer overflow), char -> XMLCh, and the two bounded overloads
+  ⟨"ICULCPTranscoder.fConverter", icu, "ICULCPTranscoder::calcRequiredSize", "fMutex", 3⟩,
+  ⟨"ICULCPTranscoder.fConverter", icu, "ICULCPTranscoder::transcode", "fMutex", 5⟩,
+  ⟨"RangeTokenMap.registry", rtm, "RangeTokenMap::getRange", "fMutex", 1⟩]
+
 end XV.Model.LockTable
